@@ -22,6 +22,34 @@ func main() {
 			want[[2]int{i, j}] = f(s)
 		}
 	}
+	// concurrent FIRST use of the CEL helper: goroutines released together, distinct expressions
+	start := make(chan struct{})
+	var cw sync.WaitGroup
+	celBad := make(chan string, 64)
+	for g := 0; g < 16; g++ {
+		cw.Add(1)
+		go func(g int) {
+			defer cw.Done()
+			<-start
+			for it := 0; it < 20; it++ {
+				expr := fmt.Sprintf("value > %d", (g+it)%7)
+				if got := vh.IsValidCEL(expr, 5, nil); got != (5 > (g+it)%7) {
+					select {
+					case celBad <- expr:
+					default:
+					}
+				}
+			}
+		}(g)
+	}
+	close(start)
+	cw.Wait()
+	select {
+	case b := <-celBad:
+		fmt.Println("inconsistent IsValidCEL:", b)
+		os.Exit(1)
+	default:
+	}
 	var wg sync.WaitGroup
 	bad := make(chan string, 64)
 	for g := 0; g < 32; g++ {
